@@ -230,6 +230,20 @@ def _once(case, acc, nodes):
     fresh.write(start, first)
     if first.getvalue() != expected_written:
         raise Violation("write-text", "write() as the first call on a new exporter emitted %r, expected %r" % (first.getvalue()[:300], expected_written[:300]))
+    # a duck-typed dictexporter (any object with an export() method; it learns about maxlevel only through the attribute the
+    # JsonExporter sets on it)
+    if dx is None and not case.get("encoder"):
+        class Duck:
+            def export(self, node):
+                return DictExporter(maxlevel=getattr(self, "maxlevel", None)).export(node)
+
+        duck_text = JsonExporter(dictexporter=Duck(), maxlevel=maxlevel, **kwargs).export(start)
+        if duck_text != text:
+            raise Violation("export-text", "with a duck-typed dictexporter and maxlevel=%r export() = %r, expected %r" % (maxlevel, duck_text[:300], text[:300]))
+        duck_buf = io.StringIO()
+        JsonExporter(dictexporter=Duck(), maxlevel=maxlevel, **kwargs).write(start, duck_buf)
+        if duck_buf.getvalue() != expected_written:
+            raise Violation("write-text", "with a duck-typed dictexporter and maxlevel=%r write() emitted %r" % (maxlevel, duck_buf.getvalue()[:300]))
     # ... and the calls that follow the first write() on the same exporter (its options are still the same)
     if fresh.export(start) != text:
         raise Violation("export-text", "export() after a write() on the same exporter gives %r, before it gave %r" % (fresh.export(start)[:300], text[:300]))
